@@ -206,12 +206,14 @@ Definition keys_ok (es : list sentry) : Prop := Forall (fun e => key_nonempty (s
 
 Record wf_table (tb : table) : Prop := {
   wf_nonempty : nonempty_blocks (t_blocks tb);
-  wf_keys : keys_ok (concat (t_blocks tb))
+  wf_keys : keys_ok (concat (t_blocks tb));
+  wf_good : forall j, t_bad tb j = false;    (* every data block can be fetched *)
+  wf_ikeys : ikeys tb = map bfirst (t_blocks tb)
 }.
 
 Definition st_at (j i : nat) : titer :=
-  mkTI true (mkBI true (Some j)) (Some (j, mkBI true (Some i))).
-Definition st_end : titer := mkTI true (mkBI true None) None.
+  mkTI true (mkBI true (Some j)) (Some (j, mkBI true (Some i))) false.
+Definition st_end : titer := mkTI true (mkBI true None) None false.
 
 (* the iterator stands on e, with `before` already passed and `after` still to come *)
 Definition rep (tb : table) (it : titer) (before : list sentry) (e : sentry) (after : list sentry) : Prop :=
@@ -233,14 +235,14 @@ Proof. intros es e H. unfold keys_ok in H. rewrite Forall_forall in H. apply H. 
 Lemma bfirst_nonempty : forall tb b, wf_table tb -> In b (t_blocks tb) ->
   key_nonempty (bfirst b) = true.
 Proof.
-  intros tb b [Hn Hk] Hin. unfold nonempty_blocks in Hn. rewrite Forall_forall in Hn.
+  intros tb b [Hn Hk _ _] Hin. unfold nonempty_blocks in Hn. rewrite Forall_forall in Hn.
   specialize (Hn _ Hin). destruct b as [|e b]; [congruence|]. cbn.
   eapply keys_ok_in; [exact Hk|]. apply in_concat. exists (e :: b). split; [exact Hin|left; reflexivity].
 Qed.
 
-Lemma ikeys_middle : forall tb pb b qb, t_blocks tb = pb ++ b :: qb ->
+Lemma ikeys_middle : forall tb pb b qb, wf_table tb -> t_blocks tb = pb ++ b :: qb ->
   ikeys tb = map bfirst pb ++ bfirst b :: map bfirst qb.
-Proof. intros tb pb b qb H. unfold ikeys. rewrite H, map_app. reflexivity. Qed.
+Proof. intros tb pb b qb W H. rewrite (wf_ikeys _ W). rewrite H, map_app. reflexivity. Qed.
 
 Lemma bkeys_middle : forall tb pb b qb, t_blocks tb = pb ++ b :: qb ->
   bkeys tb (length pb) = map sk b.
@@ -254,16 +256,17 @@ Lemma ix_valid_middle : forall tb pb b qb, wf_table tb -> t_blocks tb = pb ++ b 
   bi_valid (ikeys tb) (mkBI true (Some (length pb))) = true.
 Proof.
   intros tb pb b qb W H. unfold bi_valid, bi_key. cbn [bi_cur].
-  rewrite (ikeys_middle _ _ _ _ H).
+  rewrite (ikeys_middle _ _ _ _ W H).
   replace (length pb) with (length (map bfirst pb)) by apply map_length.
   rewrite nth_error_middle. eapply bfirst_nonempty; [exact W|].
   rewrite H. apply in_or_app. right. left. reflexivity.
 Qed.
 
 Lemma load_middle : forall tb pb b qb, wf_table tb -> t_blocks tb = pb ++ b :: qb ->
-  ti_load tb (mkBI true (Some (length pb))) = Some (length pb, bi_fresh).
+  ti_load tb (mkBI true (Some (length pb))) = (Some (length pb, bi_fresh), false).
 Proof.
-  intros tb pb b qb W H. unfold ti_load. rewrite (ix_valid_middle _ _ _ _ W H). reflexivity.
+  intros tb pb b qb W H. unfold ti_load. rewrite (ix_valid_middle _ _ _ _ W H). cbn [bi_cur].
+  rewrite (wf_good _ W). reflexivity.
 Qed.
 
 Lemma rep_in : forall tb it before e after, rep tb it before e after ->
@@ -302,15 +305,15 @@ Lemma length_snoc : forall (A : Type) (p : list A) b, length (p ++ [b]) = S (len
 Proof. intros. rewrite app_length. cbn. lia. Qed.
 
 (* one step of the index iterator from block |pb| *)
-Lemma ix_next_middle : forall tb pb b qb, t_blocks tb = pb ++ b :: qb ->
+Lemma ix_next_middle : forall tb pb b qb, wf_table tb -> t_blocks tb = pb ++ b :: qb ->
   bi_next (ikeys tb) (mkBI true (Some (length pb))) =
   match qb with
   | [] => (mkBI true None, false)
   | _ :: _ => (mkBI true (Some (S (length pb))), true)
   end.
 Proof.
-  intros tb pb b qb H. unfold bi_next. cbn [bi_init bi_cur negb].
-  unfold ikeys. rewrite H, map_length, app_length. cbn [length].
+  intros tb pb b qb W H. unfold bi_next. cbn [bi_init bi_cur negb].
+  rewrite (wf_ikeys _ W). rewrite H, map_length, app_length. cbn [length].
   destruct qb as [|b' qb]; cbn [length].
   - replace (Nat.ltb (S (length pb)) (length pb + 1)) with false; [reflexivity|].
     symmetry. apply Nat.ltb_ge. lia.
@@ -335,14 +338,14 @@ Qed.
 
 (* advanceToNextBlock / seekInNextBlocks from block |pb| *)
 Lemma advance_middle : forall tb pb b qb, wf_table tb -> t_blocks tb = pb ++ b :: qb ->
-  ti_advance tb (mkBI true (Some (length pb))) =
+  ti_advance tb (mkBI true (Some (length pb))) false =
   match qb with
   | [] => (st_end, false)
   | _ :: _ => (st_at (S (length pb)) 0, true)
   end.
 Proof.
   intros tb pb b qb W H. unfold ti_advance. cbn [ix_next_valid].
-  rewrite (ix_next_middle _ _ _ _ H). destruct qb as [|b' qb]; [reflexivity|].
+  rewrite (ix_next_middle _ _ _ _ W H). destruct qb as [|b' qb]; [reflexivity|].
   assert (H' : t_blocks tb = (pb ++ [b]) ++ b' :: qb) by (rewrite H; apply app_cons_assoc).
   pose proof (ix_valid_middle _ _ _ _ W H') as V. rewrite length_snoc in V. rewrite V.
   pose proof (load_middle _ _ _ _ W H') as L. rewrite length_snoc in L. rewrite L.
@@ -360,7 +363,7 @@ Lemma seek_next_middle : forall tb pb b qb f, wf_table tb -> t_blocks tb = pb ++
   end.
 Proof.
   intros tb pb b qb f W H. cbn [ti_seek_next].
-  rewrite (ix_next_middle _ _ _ _ H). destruct qb as [|b' qb]; [reflexivity|].
+  rewrite (ix_next_middle _ _ _ _ W H). destruct qb as [|b' qb]; [reflexivity|].
   assert (H' : t_blocks tb = (pb ++ [b]) ++ b' :: qb) by (rewrite H; apply app_cons_assoc).
   pose proof (load_middle _ _ _ _ W H') as L. rewrite length_snoc in L. rewrite L.
   destruct (block_nonempty_in tb b' W) as (e & r & ->).
@@ -390,7 +393,7 @@ Lemma rep_next : forall tb it before e after, wf_table tb -> rep tb it before e 
   end.
 Proof.
   intros tb it before e after W (pb & pe & qe & qb & Hb & -> & -> & ->).
-  unfold ti_next, st_at. cbn [ti_init negb ti_blk ti_ix].
+  unfold ti_next, st_at. cbn [ti_init negb ti_blk ti_ix ti_err].
   rewrite (bkeys_middle _ _ _ _ Hb).
   unfold bi_next. cbn [bi_init negb bi_cur].
   rewrite map_length, app_length. cbn [length].
@@ -460,7 +463,7 @@ Proof.
   assert (H' : t_blocks tb = [] ++ (e :: r) :: qb) by exact H.
   unfold ti_seek_first.
   assert (F : bi_first (ikeys tb) = mkBI true (Some 0%nat)).
-  { unfold ikeys. rewrite H. reflexivity. }
+  { rewrite (wf_ikeys _ W). rewrite H. reflexivity. }
   rewrite F. pose proof (load_middle _ _ _ _ W H') as L. cbn [length] in L. rewrite L.
   destruct (first_of_block _ _ _ _ _ W H') as [F1 _]. cbn [length] in F1. rewrite F1.
   exists [], [], r, qb. repeat split. exact H.
@@ -477,7 +480,7 @@ Qed.
 
 Lemma ikeys_nonempty : forall tb, wf_table tb -> Forall (fun k => key_nonempty k = true) (ikeys tb).
 Proof.
-  intros tb W. unfold ikeys. rewrite Forall_map. rewrite Forall_forall. intros b Hb.
+  intros tb W. rewrite (wf_ikeys _ W). rewrite Forall_map. rewrite Forall_forall. intros b Hb.
   eapply bfirst_nonempty; eauto.
 Qed.
 
@@ -497,9 +500,9 @@ Proof.
   exists (concat pb ++ pe), e. split.
   - rewrite Hb, concat_app. cbn. rewrite app_nil_r, Hbe, app_assoc. reflexivity.
   - unfold ti_seek_last. rewrite (valid_run_all _ (ikeys_nonempty _ W)).
-    unfold ikeys. rewrite map_length, Hb, app_length. cbn [length].
+    rewrite (wf_ikeys _ W). rewrite map_length, Hb, app_length. cbn [length].
     replace (length pb + 1)%nat with (S (length pb)) by lia.
-    rewrite (bkeys_middle tb pb b [] Hb).
+    rewrite (wf_good _ W). rewrite (bkeys_middle tb pb b [] Hb).
     assert (BL : bi_last (map sk b) = mkBI true (Some (length pe))).
     { rewrite Hbe, map_app. unfold bi_last. cbn [map]. rewrite app_length, map_length. cbn [length].
       destruct (map sk pe ++ [sk e]) eqn:E.
@@ -562,7 +565,8 @@ Proof.
   intros tb t W S Hne. unfold ti_seek, bi_seek_prev.
   destruct (find_le t (ikeys tb)) as [j|] eqn:FL.
   - (* block j is the last whose first key is <= t *)
-    destruct (find_le_some _ bfirst t (t_blocks tb) j FL) as (pb & b & qb & Hb & Hl & Hk & Hq).
+    pose proof FL as FL'. rewrite (wf_ikeys _ W) in FL'.
+    destruct (find_le_some _ bfirst t (t_blocks tb) j FL') as (pb & b & qb & Hb & Hl & Hk & Hq).
     subst j.
     rewrite (ix_valid_middle _ _ _ _ W Hb). rewrite (load_middle _ _ _ _ W Hb).
     rewrite (bkeys_middle _ _ _ _ Hb). unfold bi_seek. cbn [bi_cur].
@@ -590,12 +594,13 @@ Proof.
         -- apply Forall_app. split; assumption.
         -- cbn in Hq. apply blt_ble. apply ble_false_blt. exact Hq.
   - (* t is below the first key of the table *)
-    pose proof (find_le_none _ bfirst t (t_blocks tb) FL) as H0.
+    pose proof FL as FL'. rewrite (wf_ikeys _ W) in FL'.
+    pose proof (find_le_none _ bfirst t (t_blocks tb) FL') as H0.
     replace (bi_valid (ikeys tb) (mkBI true None)) with false by reflexivity.
     destruct (t_blocks tb) as [|b qb] eqn:Hb; [congruence|].
     assert (Hb' : t_blocks tb = [] ++ b :: qb) by exact Hb.
     assert (F : bi_first (ikeys tb) = mkBI true (Some 0%nat)).
-    { unfold ikeys. rewrite Hb. reflexivity. }
+    { rewrite (wf_ikeys _ W). rewrite Hb. reflexivity. }
     rewrite F.
     pose proof (load_middle _ _ _ _ W Hb') as L. cbn [length] in L. rewrite L.
     pose proof (bkeys_middle _ _ _ _ Hb') as BK. cbn [length] in BK. rewrite BK.
@@ -653,8 +658,8 @@ Qed.
 
 (* the reader has, for every data block, a filter that contains all keys of the block *)
 Definition filters_ok (tb : table) : Prop :=
-  t_hasf tb = true -> forall j b, nth_error (t_blocks tb) j = Some b ->
-    exists f, t_filter tb j = Some f /\ forall e, In e b -> f (sk e) = true.
+  t_hasf tb = true -> forall j b f, nth_error (t_blocks tb) j = Some b ->
+    t_filter tb j = Some f -> forall e, In e b -> f (sk e) = true.
 
 Lemma keys_ok_block : forall tb b, wf_table tb -> In b (t_blocks tb) -> keys_ok b.
 Proof.
@@ -667,10 +672,11 @@ Lemma get_spec : forall tb k, wf_table tb -> sorted_table tb -> filters_ok tb ->
 Proof.
   intros tb k W S F. unfold t_get, lookup, bi_seek_prev. fold (keq k).
   destruct (find_le k (ikeys tb)) as [j|] eqn:FL.
-  - destruct (find_le_some _ bfirst k (t_blocks tb) j FL) as (pb & b & qb & Hb & Hl & Hk & Hq).
+  - pose proof FL as FL'. rewrite (wf_ikeys _ W) in FL'.
+    destruct (find_le_some _ bfirst k (t_blocks tb) j FL') as (pb & b & qb & Hb & Hl & Hk & Hq).
     subst j.
     rewrite (ix_valid_middle _ _ _ _ W Hb). cbn [bi_cur].
-    rewrite (nth_block_middle _ _ _ _ Hb).
+    rewrite (nth_block_middle _ _ _ _ Hb). rewrite (wf_good _ W).
     assert (Kb : keys_ok b).
     { eapply keys_ok_block; [exact W|]. rewrite Hb. apply in_or_app. right. left. reflexivity. }
     rewrite (search_block_find _ _ Kb).
@@ -700,16 +706,18 @@ Proof.
         destruct (keq k y) eqn:E; [discriminate|]. constructor; auto. }
     rewrite L.
     destruct (t_hasf tb) eqn:HF.
-    + destruct (F HF (length pb) b) as (f & Ff & Fin).
-      { rewrite Hb. apply nth_error_middle. }
-      rewrite Ff. destruct (f k) eqn:Fk; [reflexivity|].
+    + destruct (t_filter tb (length pb)) as [f|] eqn:Ff; [|reflexivity].
+      assert (Fin : forall e, In e b -> f (sk e) = true).
+      { apply (F HF (length pb) b f); [rewrite Hb; apply nth_error_middle|exact Ff]. }
+      destruct (f k) eqn:Fk; [reflexivity|].
       (* the filter says no: then k is not a key of b *)
       destruct (find (keq k) b) as [x|] eqn:Fb; [|reflexivity].
       apply find_some in Fb. destruct Fb as [Hin Hx]. unfold keq in Hx. apply beq_true_iff in Hx.
       specialize (Fin _ Hin). congruence.
     + reflexivity.
   - (* k is below the first key: no entry has key k *)
-    pose proof (find_le_none _ bfirst k (t_blocks tb) FL) as H0.
+    pose proof FL as FL'. rewrite (wf_ikeys _ W) in FL'.
+    pose proof (find_le_none _ bfirst k (t_blocks tb) FL') as H0.
     replace (bi_valid (ikeys tb) (mkBI true None)) with false by reflexivity.
     destruct (t_blocks tb) as [|b qb] eqn:Hb; [reflexivity|].
     assert (Hin : In b (t_blocks tb)) by (rewrite Hb; left; reflexivity).
@@ -732,13 +740,15 @@ Record holds (tb : table) (es : list sentry) : Prop := {
   h_asc : ascending es = true;
   h_keys : keys_ok es;
   h_part : concat (t_blocks tb) = es;
-  h_blocks : nonempty_blocks (t_blocks tb)
+  h_blocks : nonempty_blocks (t_blocks tb);
+  h_good : forall j, t_bad tb j = false;
+  h_ikeys : ikeys tb = map bfirst (t_blocks tb)
 }.
 
 Lemma holds_wf : forall tb es, holds tb es -> wf_table tb /\ sorted_table tb.
 Proof.
-  intros tb es [A K P B]. split.
-  - constructor; [exact B|rewrite P; exact K].
+  intros tb es [A K P B G I]. split.
+  - constructor; [exact B|rewrite P; exact K|exact G|exact I].
   - unfold sorted_table. rewrite P. apply ascending_strong. exact A.
 Qed.
 
@@ -753,7 +763,7 @@ Proof.
   assert (G : collect tb (S (length es)) (ti_seek_first tb) = es).
   { destruct (t_blocks tb) as [|b qb] eqn:Hb.
     - pose proof (h_part _ _ H) as P. rewrite Hb in P. cbn in P. subst es.
-      cbn [collect length]. unfold ti_seek_first, ikeys. rewrite Hb. reflexivity.
+      cbn [collect length]. unfold ti_seek_first. rewrite (wf_ikeys _ W), Hb. reflexivity.
     - destruct (block_nonempty_in tb b W) as (e & r & ->); [rewrite Hb; left; reflexivity|].
       pose proof (rep_first _ _ _ _ W Hb) as R.
       pose proof (rep_entries _ _ _ _ _ R) as E. rewrite (h_part _ _ H) in E. cbn [app] in E.
@@ -845,13 +855,13 @@ Section Writer.
   Lemma write_holds : forall bloom es, ascending es = true -> keys_ok es -> holds (write fh bloom es) es.
   Proof.
     intros bloom es A K. destruct (cut_partition es) as [P N].
-    constructor; [exact A|exact K|exact P|exact N].
+    constructor; [exact A|exact K|exact P|exact N|reflexivity|reflexivity].
   Qed.
 
   Lemma write_filters : forall bloom es, filters_ok (write fh bloom es).
   Proof.
-    intros bloom es HF j b Hj. cbn in *. apply andb_true_iff in HF. destruct HF as [HB _].
-    subst bloom. rewrite Hj. cbn. exists (fh b). split; [reflexivity|]. intros e He.
+    intros bloom es HF j b f Hj Hf e He. cbn in *. apply andb_true_iff in HF. destruct HF as [HB _].
+    subst bloom. rewrite Hj in Hf. cbn in Hf. inversion Hf; subst f.
     apply fh_complete. exact He.
   Qed.
 
@@ -880,17 +890,21 @@ Section Writer.
 End Writer.
 
 (* ------------------------------------------------------------------------------------- *)
-(* 10. behaviour of the reader when the filter of a block is missing or wrong             *)
+(* 10. behaviour of the reader when the filter of a block is missing                      *)
 (* ------------------------------------------------------------------------------------- *)
 
-(* Reader.Get skips a block for which hasBloomFilter is set but no filter is registered under
-   the block's offset: every key of that block is reported as not found. *)
-Theorem get_missing_filter : forall tb k j,
-  t_hasf tb = true -> bi_valid (ikeys tb) (bi_seek_prev (ikeys tb) k) = true ->
-  find_le k (ikeys tb) = Some j -> t_filter tb j = None -> t_get tb k = GNotFound.
+(* A block for which no filter is registered (the filter could not be loaded) is searched:
+   Get stays exact when any subset of the filters is missing. *)
+Theorem get_missing_filters : forall tb es k (missing : nat -> bool),
+  holds tb es -> filters_ok tb ->
+  let tb' := mkT (t_ikeys tb) (t_blocks tb) (t_hasf tb)
+                 (fun j => if missing j then None else t_filter tb j) (t_bad tb) in
+  t_get tb' k = lookup k es.
 Proof.
-  intros tb k j HF V FL N. unfold t_get. rewrite V. unfold bi_seek_prev. cbn [bi_cur].
-  rewrite FL, HF, N. reflexivity.
+  intros tb es k missing H F tb'. apply get_partition.
+  - destruct H as [A K P B G I]. constructor; assumption.
+  - intros HF j b f Hj Hf. cbn in Hf. destruct (missing j); [discriminate|].
+    apply (F HF j b f Hj Hf).
 Qed.
 
 (* ------------------------------------------------------------------------------------- *)
@@ -912,20 +926,22 @@ Definition ex_d := mkS [255;255] 0 (Some [9]).
 Definition ex_es := [ex_a; ex_b; ex_c; ex_d].
 (* an arbitrary partition (not the writer's), filters that know only their own keys *)
 Definition ex_tb : table :=
-  mkT [[ex_a]; [ex_b; ex_c]; [ex_d]] true
-      (fun j => Some (fun k => existsb (fun e => beq (sk e) k) (nth j [[ex_a]; [ex_b; ex_c]; [ex_d]] []))).
+  mkT [[97]; [97;0]; [255;255]] [[ex_a]; [ex_b; ex_c]; [ex_d]] true
+      (fun j => Some (fun k => existsb (fun e => beq (sk e) k) (nth j [[ex_a]; [ex_b; ex_c]; [ex_d]] [])))
+      (fun _ => false).
 
 Example ex_holds : holds ex_tb ex_es.
 Proof.
-  constructor; [reflexivity| |reflexivity|].
+  constructor; [reflexivity| |reflexivity| |reflexivity|reflexivity].
   - apply wf_keys_ok. reflexivity.
   - repeat constructor; discriminate.
 Qed.
 
 Example ex_filters : filters_ok ex_tb.
 Proof.
-  intros _ j b Hj. destruct j as [|[|[|j]]]; cbn in Hj; try (destruct j; discriminate);
-    inversion Hj; subst b; eexists; (split; [reflexivity|]); intros e He; cbn in He;
+  intros _ j b f Hj Hf. cbn in Hf. inversion Hf; subst f. clear Hf.
+  destruct j as [|[|[|j]]]; cbn in Hj; try (destruct j; discriminate);
+    inversion Hj; subst b; intros e He; cbn in He;
     repeat (destruct He as [<-|He]; [vm_compute; reflexivity|]); destruct He.
 Qed.
 
